@@ -95,10 +95,14 @@ Section Checker.
         end
     | None => true
     end.
-  (* Tuple[()] (typing alias named Tuple with __args__ == ()) is complete when the source says so *)
+  (* Tuple[()] (typing alias named Tuple with __args__ == ()) is complete when the source says so.
+     A plain class: when the source answers True for it first (plain_class_complete) that is a fact about every class;
+     otherwise its __name__ is looked up in the arity tables, and `ann_name (ACls _) = None` is the ASSUMPTION that no class in
+     play is called like a key of those tables (a user class named List / Dict / Tuple ... would be "incomplete"). *)
   Definition has_required (a : ann) : bool :=
     match a with
     | ATupleEmpty SpTyping | AGeneric SpTyping TTuple [] => tuple_empty_ok cfg || has_required_tables a
+    | ACls _ => plain_class_complete cfg || has_required_tables a
     | _ => has_required_tables a
     end.
 
